@@ -9,7 +9,7 @@ use refcodec::message::{Atom, RefMessage};
 use refcodec::{decode_all, has_v2_kind, NO_UTF8};
 use std::collections::{BTreeMap, BTreeSet};
 
-#[derive(Default, Clone)]
+#[derive(Clone)]
 pub struct Monitors {
     /// calls a connection has made and not yet seen answered: (caller, serial)
     pending_calls: BTreeSet<(Cid, u32)>,
@@ -26,6 +26,8 @@ pub struct Monitors {
     announced: BTreeMap<U, u64>,
     sent: BTreeMap<U, u64>,
     pub counts: MonitorCounts,
+    /// check that no 1.20 container encoding reaches a pre-1.20 peer (off when senders emit garbage)
+    pub payload_monitor: bool,
 }
 
 #[derive(Default, Clone, Debug)]
@@ -52,6 +54,24 @@ fn atom_d(a: &[Atom], i: usize) -> Option<u8> {
     match a.get(i) {
         Some(Atom::D(x)) => Some(*x),
         _ => None,
+    }
+}
+
+impl Default for Monitors {
+    fn default() -> Self {
+        Self {
+            pending_calls: BTreeSet::new(),
+            created: BTreeMap::new(),
+            destroyed: BTreeMap::new(),
+            finished: BTreeSet::new(),
+            item_next: BTreeMap::new(),
+            forwarded: BTreeMap::new(),
+            granted: BTreeMap::new(),
+            announced: BTreeMap::new(),
+            sent: BTreeMap::new(),
+            counts: MonitorCounts::default(),
+            payload_monitor: true,
+        }
     }
 }
 
@@ -118,7 +138,7 @@ impl Monitors {
                     format!("connection c{c} negotiated 1.{minor} but received {} (introduced in 1.{since})", sym::render(m)),
                 ));
             }
-            if minor < 20 {
+            if minor < 20 && self.payload_monitor {
                 if let Some(v) = &m.value {
                     if let Ok(d) = decode_all(v, NO_UTF8) {
                         if has_v2_kind(&d.kinds) {
